@@ -539,7 +539,9 @@ OpsOf(mu, sig) ==
                      (changed \cap {"null", "max_length", "unique"}) # {},
                      "db_index" \in changed, mu.f)>>
     \* on SQLite a change of Meta.constraints is carried out by a table rebuild
-    [] mu.k = "Meta" -> <<Op("change_meta", mu.prop = "constraints", FALSE, None)>>
+    [] mu.k = "Meta" -> <<Op("change_meta",
+                             mu.prop = "constraints" /\ mu.m \in DOMAIN sig /\ mu.ival # sig[mu.m].cons,
+                             FALSE, None)>>
     [] mu.k \in {"RenF", "RenM", "DelM"} -> <<Op("sql", FALSE, FALSE, None)>>
     [] OTHER -> <<>>
 
